@@ -1,0 +1,69 @@
+/*
+ * Copyright (C) 2024 Nuts community
+ *
+ * This program is free software: you can redistribute it and/or modify
+ * it under the terms of the GNU General Public License as published by
+ * the Free Software Foundation, either version 3 of the License, or
+ * (at your option) any later version.
+ *
+ * This program is distributed in the hope that it will be useful,
+ * but WITHOUT ANY WARRANTY; without even the implied warranty of
+ * MERCHANTABILITY or FITNESS FOR A PARTICULAR PURPOSE.  See the
+ * GNU General Public License for more details.
+ *
+ * You should have received a copy of the GNU General Public License
+ * along with this program.  If not, see <https://www.gnu.org/licenses/>.
+ *
+ */
+
+package discovery
+
+import (
+	"context"
+	"testing"
+
+	"github.com/nuts-foundation/go-did/vc"
+	"github.com/nuts-foundation/nuts-node/discovery/api/server/client"
+	"github.com/nuts-foundation/nuts-node/storage"
+	"github.com/nuts-foundation/nuts-node/vcr/credential"
+	"github.com/stretchr/testify/assert"
+	"github.com/stretchr/testify/require"
+	"go.uber.org/mock/gomock"
+)
+
+// A seed change wipes the local copy and resets its timestamp. The response that revealed the new seed only holds the
+// presentations after the timestamp of the OLD list, so it must be discarded: the next update starts over from 0.
+func Test_clientUpdater_updateService_seedChangeStartsOver(t *testing.T) {
+	storageEngine := storage.NewTestStorageEngine(t)
+	require.NoError(t, storageEngine.Start())
+	store, err := newSQLStore(storageEngine.GetSQLDatabase(), testDefinitions())
+	require.NoError(t, err)
+	ctx := context.Background()
+	serviceDefinition := testDefinitions()[testServiceID]
+	ctrl := gomock.NewController(t)
+	httpClient := client.NewMockHTTPClient(ctrl)
+	updater := newClientUpdater(testDefinitions(), store, alwaysOkVerifier, httpClient)
+	_, err = store.add(testServiceID, vpAlice, testSeed, 5)
+	require.NoError(t, err)
+
+	// the new list holds Alice at 1 and Bob at 6, but only Bob is after our timestamp on the old list
+	httpClient.EXPECT().Get(ctx, serviceDefinition.Endpoint, 5).Return(map[string]vc.VerifiablePresentation{"6": vpBob}, "other", 6, nil)
+	require.NoError(t, updater.updateService(ctx, serviceDefinition))
+
+	timestamp, err := store.getTimestamp(testServiceID)
+	require.NoError(t, err)
+	assert.Equal(t, 0, timestamp)
+
+	httpClient.EXPECT().Get(ctx, serviceDefinition.Endpoint, 0).Return(map[string]vc.VerifiablePresentation{"1": vpAlice, "6": vpBob}, "other", 6, nil)
+	require.NoError(t, updater.updateService(ctx, serviceDefinition))
+
+	for _, vp := range []vc.VerifiablePresentation{vpAlice, vpBob} {
+		signer, _ := credential.PresentationSigner(vp)
+		exists, err := store.exists(testServiceID, signer.String(), vp.ID.String())
+		require.NoError(t, err)
+		assert.True(t, exists)
+	}
+	timestamp, err = store.getTimestamp(testServiceID)
+	require.NoError(t, err)
+	assert.Equal(t, 6, timestamp)
+}
